@@ -560,7 +560,18 @@ class Executor:
         if op == "getelementptr":
             base = self.val(st, ins.args[0])
             idx = [self.val(st, a) for a in ins.args[1:]]
-            env[ins.res] = _simp(base + self._gep_offset(ins.extra, idx, [a.ty for a in ins.args[1:]]))
+            off = self._gep_offset(ins.extra, idx, [a.ty for a in ins.args[1:]])
+            r = _simp(base + off)
+            env[ins.res] = r
+            # pointers into small constant tables are remembered so that loads through them become
+            # if-then-else chains over the table's entries instead of array reads
+            if isinstance(ins.args[0], GlobalRef) and not z3.is_bv_value(r):
+                g = self.m.globals.get(ins.args[0].name)
+                if g is not None and g.constant and not isinstance(g.init, BytesConst):
+                    data = self.global_bytes(ins.args[0].name)
+                    if data is not None and len(data) <= 2048:
+                        self._table_ptr = getattr(self, "_table_ptr", {})
+                        self._table_ptr[r.get_id()] = (data, _simp(off), r)
             return True
         if op == "load":
             p = self.val(st, ins.args[0])
@@ -569,7 +580,16 @@ class Executor:
             bits = self._bits(ins.ty)
             nbytes = (bits + 7) // 8
             self._access(res, site, st, p, nbytes, ins.extra, write=False)
-            v = self._load(st.mem, p, nbytes)
+            tp = getattr(self, "_table_ptr", {}).get(p.get_id())
+            if tp is not None and len(tp[0]) % nbytes == 0:
+                data, off, _ = tp
+                v = bv(0, nbytes * 8)
+                for k in range(len(data) // nbytes - 1, -1, -1):
+                    entry = int.from_bytes(bytes(data[k * nbytes:(k + 1) * nbytes]), "little")
+                    v = z3.If(off == bv(k * nbytes, 64), bv(entry, nbytes * 8), v)
+                v = _simp(v)
+            else:
+                v = self._load(st.mem, p, nbytes)
             if bits == 1:
                 v = z3.Extract(0, 0, v) == bv(1, 1)
             elif bits != nbytes * 8:
